@@ -632,8 +632,9 @@ func runClassFile() {
 			}
 			// (2) behaviour: class project vs Go twin (the property), XGo twin and model as further voters
 			switch {
-			case a != g && c.Shadow && lastLine(a) != lastLine(g):
-				// the package-level variable named like field 1 was modified by the class's methods
+			case a != g && c.Shadow:
+				// layouts with a package-level variable named like field 1: the methods of the class must
+				// work on the field (one signature for this root cause, whatever line differs first)
 				set(5, "viol", "behaviour:package-var-shadows-field", fmt.Sprintf("class-file program printed\n%s\nexplicit-struct twin (Go tool chain) printed\n%s\n%s", a, g, text))
 			case a != g:
 				set(5, "viol", "behaviour:class-vs-go-twin:"+firstDiffTag(a, g), fmt.Sprintf("class-file program printed\n%s\nexplicit-struct twin (Go tool chain) printed\n%s\n%s", a, g, text))
